@@ -914,10 +914,11 @@ class Ackermannizer(IdentityDagWalker):
     def _generate_implication(self, option1: Sequence[FNode], option2: Sequence[FNode], f: FNode) -> FNode:
         left_conjuncts = set()
         for term1, term2 in zip(option1, option2):
-            if term1.is_function_application():
-                term1 = self._terms_dict[term1]
-            if term2.is_function_application():
-                term2 = self._terms_dict[term2]
+            # Compare the arguments as they occur in the substituted
+            # formula: applications are replaced also when they are
+            # nested inside an argument (e.g., f(g(x) + 1))
+            term1 = self.walk(term1)
+            term2 = self.walk(term2)
             conjunct = self.mgr.EqualsOrIff(term1, term2)
             left_conjuncts.add(conjunct)
         left = self.mgr.And(left_conjuncts)
